@@ -176,7 +176,7 @@ Definition same_tree (m r : dtree) : bool :=
 Definition derr_matches (e : derr) (c : dcase) : bool :=
   match e with
   | DBuild e' => err_matches e' (mkCase (d_cfg c) (d_ops c) (d_b c) (d_ok c) (d_exc c) (d_jmc c) [])
-  | DTagErr => negb (d_ok c) && String.eqb (d_exc c) "JMCBuildError"
+  | DTagErr | DCopyClash => negb (d_ok c) && String.eqb (d_exc c) "JMCBuildError"
   end.
 (* [code; undisciplined; generated files not closed on the predicted tree; load not registered; tick not registered / stale own entry;
     a generated file sits on a tag path] — code: 0 agree, 1 op replay differs, 2 real ok but no build logged, 3 error class differs,
@@ -191,15 +191,17 @@ Definition dsummary (c : dcase) : list nat :=
           match dbuild (d_cfg c) (d_env c) b st with
           | inl e => [if derr_matches e c then 0 else 3; 0; 0; 0; 0; 0]%nat
           | inr tree =>
-              match build (d_cfg c) b st, assemble (d_cfg c) b st with
+              (* (round 5) the generated files are [all_files], not [build]'s: a program that calls into the #copy library
+                 has no virtual build *)
+              match (inr (all_files (d_cfg c) b st) : berr + list (fkey * fcontent)), assemble (d_cfg c) b st with
               | inr files, inr hf =>
                   [if d_ok c then (if same_tree tree (d_after c) then 0%nat else 4%nat) else 5%nat;
-                   b2n (negb (alloc_disc (d_ops c) && disc (d_cfg c) b st));
+                   b2n (negb (alloc_disc (d_ops c) && disc_lib (d_cfg c) (d_env c) b st));
                    b2n (negb (disk_closedb (d_cfg c) files tree));
                    b2n (negb (load_registered (d_cfg c) tree));
                    b2n (negb (tick_registered (d_cfg c) (tick_nonempty (d_cfg c) (fst hf) (snd hf)) tree));
                    b2n (negb (disk_tag_free (d_cfg c) (gen_files (d_cfg c) b st)))]
-              | _, _ => [6; 0; 0; 0; 0; 0]%nat      (* impossible: Proofs.AllocDisk.dbuild_build *)
+              | _, _ => [6; 0; 0; 0; 0; 0]%nat      (* impossible: Proofs.AllocDisk.dbuild_files *)
               end
           end
       end
